@@ -25,6 +25,15 @@ CHECKS = {
             "TLA+ codec spec (CRC-16 in TLA+); TLC grid model checking + vector replay; TLC trace validation",
             "As C02 for telemetry with the timestamp length as configuration axis (0..40), the service-17 wrapper and the "
             "generic space-packet view.", "DESIGN.md 5/C03", ""),
+    "C04": (True, "fault_enumeration",
+            "TLA+ fault model (burst injection, length-octet guard, Inv_Detect on the spec's own decoders, MC_Crc burst theorem); "
+            "TLC-enumerated fault schedules replayed on the code; TLC trace validation of random faults",
+            "Faults.tla enumerates every single-bit flip and the all-ones / two-ends bursts of every width 2..16 at every bit "
+            "offset outside the length-determining octets of packed TC / TM / the 8 PDU kinds with CRC; TLC checks that the "
+            "specification's decoders refuse each corrupted packet and, in MC_Crc, that no burst of <= 16 bits has CRC 0 "
+            "(all 32 768 shapes); each schedule is executed on the real code through the class decoder and the generic entry "
+            "(factory / check_pus_crc), which must refuse with a documented error; clean packets (also after setters) must be "
+            "accepted; random interior burst patterns on random packets are validated by TLC.", "DESIGN.md 5/C04", ""),
     "C05": (True, "model_checking",
             "TLA+ codec spec; TLC grid model checking + vector replay; TLC trace validation of recorded calls",
             "TLC checks header round-trip / length / no-swap / reject laws over all 2^7 flag combinations x 16 width pairs x ID "
@@ -125,5 +134,5 @@ CHECKS = {
             "validated by TLC.", "DESIGN.md 5/C20", ""),
 }
 NOT_YET = {}
-for _i in [4, 9, 10]:
+for _i in [9, 10]:
     NOT_YET[f"C{_i:02d}"] = "check not built yet in this revision of /verif (construction in progress, see DESIGN.md 11)"
